@@ -1773,7 +1773,11 @@ func (g *FnGen) panicInstr(in *ssa.Panic, st *State, reach string) {
 	// explicit panic: allowed when the contract says maypanic (documented behaviour), else an obligation
 	if g.con != nil && g.con.Flags["maypanic"] {
 		// C05: the panic value must not be a runtime error: statically an explicit value
-		g.xexits = append(g.xexits, xexit{in.Block().Index, reach, st.clone(), posOf(g.w, in.Pos()), len(g.defers)})
+		xs := st.clone()
+		g.w.heapSort["panicking"], g.w.heapSort["panicval"] = "Bool", "Int"
+		xs.heap["panicking"] = Term{"true", "Bool"} // an explicit panic starts panicking, exactly like a panicking callee
+		xs.heap["panicval"] = g.val(in.X)
+		g.xexits = append(g.xexits, xexit{in.Block().Index, reach, xs, posOf(g.w, in.Pos()), len(g.defers)})
 		return
 	}
 	k := g.ordinal("safe.panic")
